@@ -383,10 +383,15 @@ def ns_pairs(mapping):
     return out
 
 
-def snapshot(g):
-    """Observable definition of a grammar, taken without touching its caches (``to_json`` is rebuilt from the builder)."""
+def snapshot(g, with_schema=True):
+    """Observable definition of a grammar, taken without touching its caches (``to_json`` is rebuilt from the builder).
+
+    ``with_schema=False``: ``to_json`` is not called at all (it re-synchronizes the required names of the schema builder, which
+    would hide a stale builder state, e.g. right after unpickling)."""
     d = dict(names=list(g.keys()), required=sorted(g.required_names), defaults=sorted((k, repr(v)) for k, v in g.defaults.items()),
              to_ns=sorted(ns_pairs(g.to_namespaced)), from_ns=sorted(ns_pairs(g.from_namespaced)))
+    if not with_schema:
+        return d
     if is_json(g):
         d["schema"] = strip_schema(json.loads(g.to_json()))
     else:
@@ -453,6 +458,8 @@ RECIPES = {
     "R3": [("data", "a", "float", False), ("data", "b", "str", False), ("types", "ns:a", "any", False), ("validate",)],
     "R4": [("types", "a", "float", False), ("validate",), ("names", ("a",), True)],  # JSON only from the merge on
     "R5": [("names", ("a",), False), ("pickle",), ("types", "b", "bool", False), ("req_discard", "a")],
+    # a freshly unpickled grammar (its schema builder still carries the state of the pickled schema), then any two operations
+    "R6": [("names", ("a", "b"), False), ("default", "b", 52), ("pickle",)],
 }
 
 
@@ -607,7 +614,8 @@ class Env:
                     del self.g[kind]
                 continue
             if opname in ("copy", "pickle"):
-                d = snap_diff(before, snapshot(g2), order=False)
+                light = snapshot(g2, with_schema=False)   # the schema of the new object is observed at the end of the history only
+                d = snap_diff({k: before[k] for k in light}, light, order=False)
                 if d:
                     self.fail(f"{kind} {opname}", f"the {opname} differs from the original: {d}")
                 if g2 is g:
@@ -712,6 +720,12 @@ class Env:
             comps.append(c)
             if _canon(strip_schema(schema)) != _canon(strip_schema(fresh)):
                 self.fail(c, f"the schema view {strip_schema(schema)} is not the current definition {strip_schema(fresh)}")
+            req = set(jg.required_names)
+            for view_name, view in (("schema", schema), ("to_json", fresh)):
+                if set(view.get("required", [])) != req:
+                    c2 = f"json {view_name} required"
+                    comps.append(c2)
+                    self.fail(c2, f"the {view_name} view lists the required names {sorted(view.get('required', []))} but required_names is {sorted(req)}")
             if set(schema.get("properties", {})) != set(self.ref.el):
                 self.fail(c, f"properties {sorted(schema.get('properties', {}))} expected {sorted(self.ref.el)}")
             ref_val = reference_validator(schema, set(jg.required_names) if use_required_names else None)
@@ -961,6 +975,64 @@ HARNESSES = {"histories": h_histories, "data": h_data, "schema_view": h_schema_v
 
 
 # ------------------------------------------------------------------------------------------------------------------
+# pickle_views: an unpickled / copied JSON grammar edited WITHOUT any intermediate observation (every call of to_json /
+# schema / validate re-synchronizes internal caches and would hide a stale state): views agree with required_names at the end
+# ------------------------------------------------------------------------------------------------------------------
+def h_pickle_views(ctx, cfg):
+    from gemseo.core.grammars.json_grammar import JSONGrammar
+
+    g = JSONGrammar("g")
+    build = cfg["build"]
+    if build == "names":
+        g.update_from_names(["a", "b"])
+    elif build == "types":
+        g.update_from_types({"a": int, "b": float})
+    else:
+        g.update_from_names(["a"])
+        g.update_from_types({"b": str})
+        g.required_names.discard("b")
+    if cfg.get("warm"):
+        g.validate({"a": np.array([1.0]) if build != "types" else 1, "b": np.array([1.0]) if build == "names" else (1.5 if build == "types" else "s")},
+                   raise_exception=False)
+    how = cfg["how"]
+    h = pickle.loads(pickle.dumps(g)) if how == "pickle" else (_copy.copy(g) if how == "copy" else g)
+    edits = ["none", "discard a", "discard b", "add b", "discard a then add a", "rename a->c", "delete a"]
+    edit = edits[ctx.choice("edit", len(edits))]
+    if edit == "discard a":
+        h.required_names.discard("a")
+    elif edit == "discard b":
+        h.required_names.discard("b")
+    elif edit == "add b":
+        h.required_names.add("b")
+    elif edit == "discard a then add a":
+        h.required_names.discard("a")
+        h.required_names.add("a")
+    elif edit == "rename a->c":
+        h.rename_element("a", "c")
+    elif edit == "delete a":
+        del h["a"]
+    order = cfg["order"]
+    views = {}
+    for name in order:
+        views[name] = json.loads(h.to_json()) if name == "to_json" else _copy.deepcopy(dict(h.schema))
+    req = set(h.required_names)
+    for name, view in views.items():
+        ctx.check(f"{how}, {edit}: {name} lists exactly the required names", _b(ctx, set(view.get("required", [])) == req))
+        ctx.check(f"{how}, {edit}: {name} lists exactly the elements", _b(ctx, set(view.get("properties", {})) == set(h.keys())))
+    # and validation follows required_names
+    for missing in sorted(h.keys()):
+        data = {n: (1 if build == "types" and n in ("a", "c") else 1.5 if build == "types" else np.array([1.0]) if (build == "names" or n in ("a", "c")) else "s")
+                for n in h.keys() if n != missing}
+        ok = accepts(h, data)
+        ctx.check(f"{how}, {edit}: data without {missing} accepted iff {missing} is not required", _b(ctx, ok == (missing not in req)))
+    ctx.observe("n_required", [float(len(req))])
+
+
+def _b(ctx, v):
+    return ctx.true() if v else ctx.false()
+
+
+# ------------------------------------------------------------------------------------------------------------------
 # configurations
 # ------------------------------------------------------------------------------------------------------------------
 def configs(tier):
@@ -993,6 +1065,11 @@ def configs(tier):
         for sch in SCHEMAS:
             for merge in (False, True):
                 out.append(("from_schema", dict(recipe=rec, schema=sch, merge=merge, observe="validate")))
+    for build in ("names", "types", "mixed"):
+        for how in ("pickle", "copy", "same"):
+            for warm in (False, True):
+                for order in (["to_json"], ["schema"], ["schema", "to_json"], ["to_json", "schema"]):
+                    out.append(("pickle_views", dict(build=build, how=how, warm=warm, order=order)))
     for rec in recipes:
         for how in ("to_simple_grammar", "SimpleGrammar.update"):
             out.append(("convert", dict(recipe=rec, how=how)))
@@ -1008,3 +1085,6 @@ def crosshair_targets(tier):
              "_split_join_round_trip", "_split_without_namespace", "_split_then_join", "_split_nested_namespace",
              "_update_namespaces_new_key", "_update_namespaces_same_key", "_update_namespaces_lists"]
     return [dict(file=f, function=n, timeout=30 if tier == "quick" else 60) for n in names]
+
+
+HARNESSES["pickle_views"] = h_pickle_views
